@@ -354,5 +354,46 @@ pub fn run_case(case: &mut Case) {
             }
             break;
         }
+        // (iii) only the first `--` is the separator: a second one is a word like any other and
+        // is delivered (or refused) exactly like an unrelated word in its place
+        if let Some(dd) = line.origin.iter().position(|o| o.role == Role::DashDash) {
+            let at = dd + 1 + rng.below(line.argv.len() - dd);
+            let neutral = b"zzneutralword".to_vec();
+            let mut with_dd = line.argv.clone();
+            with_dd.insert(at, b"--".to_vec());
+            let mut with_word = line.argv.clone();
+            with_word.insert(at, neutral.clone());
+            let (o_dd, _) = b.run(case, &with_dd, "insert:second-separator");
+            let (o_word, _) = b.run(case, &with_word, "insert:word-right-of-separator");
+            let abnormal = |o: &Outcome| matches!(o, Outcome::Panic(_) | Outcome::FuelExhausted);
+            if !abnormal(&o_dd) && !abnormal(&o_word) {
+                let agree = match (&o_dd, &o_word) {
+                    (Outcome::Value(a), Outcome::Value(w)) => {
+                        let mut w = w.clone();
+                        subst_bytes(&mut w, &neutral, b"--");
+                        *a == w
+                    }
+                    (Outcome::Stderr { .. }, Outcome::Stderr { .. }) => true,
+                    (a, w) => a == w,
+                };
+                if !agree {
+                    case.rep.violation(
+                        "insert:second-separator:differs-from-a-word",
+                        "conservation",
+                        case.index,
+                        b.detail(
+                            &with_dd,
+                            "insert:second-separator",
+                            &format!(
+                                "what an unrelated word in that place gives ({}): {}",
+                                crate::json::show_argv(&with_word).render(),
+                                o_word.show()
+                            ),
+                            &o_dd,
+                        ),
+                    );
+                }
+            }
+        }
     }
 }
